@@ -168,6 +168,13 @@ func (e *Env) eval(c *CExpr) val {
 			_ = guards
 		}
 		body := n.evalBool(c.Args[0])
+		if len(c.Trigs) > 0 {
+			var ts []string
+			for _, te := range c.Trigs {
+				ts = append(ts, n.eval(te).t)
+			}
+			body = "(! " + body + " :pattern (" + strings.Join(ts, " ") + "))"
+		}
 		return boolVal("(" + c.Op + " (" + strings.Join(decls, " ") + ") " + body + ")")
 	case "call":
 		return e.callExpr(c)
@@ -381,6 +388,12 @@ func (x *Exec) localByName(e *Env, name string) (val, bool) {
 	}
 	for _, p := range fn.Params {
 		if p.Name() == name {
+			// a parameter that is reassigned in the body denotes, at a program point, its latest dominating value
+			if e.atBlock != nil || e.atHeader != nil {
+				if v, ok := x.reassigned(e, name); ok {
+					return v, true
+				}
+			}
 			return val{x.value(p), p.Type(), vc.sortOf(p.Type())}, true
 		}
 	}
@@ -556,6 +569,64 @@ func (x *Exec) lvalueForRead(p ssa.Value) *LValue {
 		return nil
 	}
 	return &LValue{kind: "cell", base: x.value(p), typ: et}
+}
+
+// reassigned: the latest value assigned to source variable name that dominates the current point (phi at a loop
+// header, or a later definition), if the variable is assigned anywhere in the body.
+func (x *Exec) reassigned(e *Env, name string) (val, bool) {
+	vc := x.vc
+	at := e.atBlock
+	if at == nil {
+		at = e.atHeader
+	}
+	var best ssa.Value
+	consider := func(v ssa.Value, in ssa.Instruction) {
+		if _, defined := x.vals[v]; !defined {
+			return
+		}
+		cb := in.Block()
+		if cb == nil || !(cb == at || cb.Dominates(at)) {
+			return
+		}
+		if best == nil {
+			best = v
+			return
+		}
+		bb := best.(ssa.Instruction).Block()
+		if bb == cb {
+			for _, i2 := range cb.Instrs {
+				if i2 == best.(ssa.Instruction) {
+					best = v
+					return
+				}
+				if i2 == in {
+					return
+				}
+			}
+		} else if bb.Dominates(cb) {
+			best = v
+		}
+	}
+	for _, b := range x.fn.Blocks {
+		for _, in := range b.Instrs {
+			switch t := in.(type) {
+			case *ssa.Phi:
+				if t.Comment == name {
+					consider(t, t)
+				}
+			case *ssa.DebugRef:
+				if id, ok := identName(t); ok && id == name && !t.IsAddr && isLocalObj(t) {
+					if vi, ok := t.X.(ssa.Instruction); ok {
+						consider(t.X, vi)
+					}
+				}
+			}
+		}
+	}
+	if best == nil {
+		return val{}, false
+	}
+	return val{x.vals[best], best.Type(), vc.sortOf(best.Type())}, true
 }
 
 // loopIter finds the map iterator advanced in the loop with this header.
